@@ -51,10 +51,11 @@ import proxy.common.flag             # noqa: E402,F401
 PROPERTY = 'C04'
 LEAN_TARGETS = ['PxProofs.C04']
 THEOREMS = [
-    'Px.Persist.C04_partial_forward', 'Px.Persist.C04_forward_segments', 'Px.Persist.C04_forward_relay',
+    'Px.Persist.C04_partial_forward', 'Px.Persist.C04_forward_relay', 'Px.Persist.C04_forward_segments',
     'Px.Persist.C04_partial_web', 'Px.Persist.C04_partial_reverse',
     'Px.Persist.C04_witness_F1', 'Px.Persist.C04_witness_F1_followup', 'Px.Persist.C04_witness_F2',
     'Px.Persist.C04_witness_F3', 'Px.Persist.C04_witness_F4',
+    'Px.Persist.frun_refines', 'Px.Persist.parse_portOk',
 ]
 RULE = ('fwd: 1..6 generated requests (methods, CL / chunked / no body, proxy-only headers) to 1..2 origins, packed '
         'one per segment / split anywhere inside a request / several per segment / cut anywhere, turned into tick '
@@ -949,6 +950,35 @@ def mk_fwd(rng, n, origins, mode, benign=True, mx=None, inq=1, version=b'HTTP/1.
             'meta': {'reqs': metas, 'segs': [s.hex() for s in segs], 'inq': inq if benign else 0}}
 
 
+def mk_fwd_upgrade(rng, n, origin, frames):
+    """n-1 ordinary requests, then a connection-upgrade request cut into several segments; `frames`: raw
+    protocol data sent after it (then the case is outside the quantifier: correspondence only)"""
+    metas, raws = [], []
+    for i in range(n - 1):
+        m, raw = gen_fwd_req(rng, origin)
+        metas.append(m)
+        raws.append(raw)
+    host, port = origin
+    auth = host.encode() + (b'' if port == 80 else b':%d' % port)
+    hs = [(b'Host', auth), (rng.choice([b'Connection', b'connection']), b'Upgrade'), (b'Upgrade', b'websocket'),
+          (b'Sec-WebSocket-Key', b'dGhlIHNhbXBsZSBub25jZQ=='), (b'X-A', b'1'), (b'Accept', b'*/*')]
+    rng.shuffle(hs)
+    path = rng.choice([b'/ws', b'/chat?x=1'])
+    raw = b'GET http://' + auth + path + b' HTTP/1.1\r\n' + b''.join(k + b': ' + v + b'\r\n' for k, v in hs) + b'\r\n'
+    metas.append({'o': [host, port], 'm': b'GET'.hex(), 't': path.hex(), 'b': '', 'n': len(raw)})
+    segs = pack(rng, raws, rng.choice(['one', 'split']))
+    k = rng.choice([1, 2, 3, 5, 8])
+    cuts = sorted(rng.sample(range(1, len(raw)), k))
+    last = 0
+    for c_ in cuts + [len(raw)]:
+        segs.append(raw[last:c_])
+        last = c_
+    for _ in range(frames):
+        segs.append(bytes(rng.randrange(256) for _ in range(rng.randrange(1, 12))))
+    return {'kind': 'fwd', 'max': None, 'connect': 'ok', 'ticks': fwd_ticks(rng, segs, rng.randrange(0, n + 1)),
+            'meta': {'reqs': metas, 'segs': [s.hex() for s in segs], 'inq': 0 if frames else 1}}
+
+
 def raw_fwd(segs, mx=None, connect='ok', ticks=None, reqs=None, inq=0):
     """hand-made forward case: one client tick per segment followed by a full upstream flush"""
     if ticks is None:
@@ -1129,6 +1159,9 @@ def corpus():
                        b'\x81\x05hello', b'GET http://a.example/9 HTTP/1.1\r\n\r\n']))
     cs.append(raw_fwd([r1, b'GET http://a.example/ws HTTP/1.1\r\nHost: a.example\r\nConnection: Upgrade\r\n',
                        b'Upgrade: websocket\r\n\r\n', b'\x81\x05hello']))
+    up = b'GET http://a.example/ws HTTP/1.1\r\nHost: a.example\r\nConnection: Upgrade\r\nUpgrade: websocket\r\nX-A: 1\r\n\r\n'
+    mu = {'o': ['a.example', 80], 'm': b'GET'.hex(), 't': b'/ws'.hex(), 'b': '', 'n': len(up)}
+    cs.append(raw_fwd([r1, up[:90], up[90:]], reqs=[m1, mu], inq=1))             # upgrade request in two segments
     cs.append(raw_fwd([r1, b'GET /rel HTTP/1.1\r\nHost: a.example\r\n\r\n', b'CONNECT b.example:443 HTTP/1.1\r\n\r\n']))
     cs.append(raw_fwd([b'GET http://\xff\xfe/ HTTP/1.1\r\n\r\n']))
     cs.append(raw_fwd([b'CONNECT h:0 HTTP/1.1\r\n\r\n']))
@@ -1164,7 +1197,7 @@ def corpus():
 def generate(rng, tier):
     big = tier == 'thorough'
     A = ORIGINS[0]
-    k = 1 if not big else 8
+    k = 1 if not big else 40
     # forward: the partial class
     for _ in range(260 * k):
         n = rng.choice([1, 2, 2, 3, 3, 4, 5, 6])
@@ -1181,6 +1214,8 @@ def generate(rng, tier):
     for _ in range(100 * k):
         n = rng.choice([1, 2, 3])
         yield mk_fwd(rng, n, [A] * n, rng.choice(['one', 'split', 'any']), benign=False, mx=rng.choice([None, 5]))
+    for _ in range(60 * k):
+        yield mk_fwd_upgrade(rng, rng.choice([1, 2, 3]), rng.choice(ORIGINS), rng.choice([0, 0, 1, 3]))
     # web
     for _ in range(220 * k):
         yield mk_web(rng, rng.choice([1, 2, 3, 3, 4, 6]), rng.choice(['one', 'split', 'split']))
@@ -1204,9 +1239,19 @@ def generate(rng, tier):
         n = len(data)
         for i in range(1, n):
             yield raw_fwd([data[:i], data[i:]], reqs=[m1, m2, m3], inq=1)
-        for i in range(1, n, 7):
-            for j in range(i + 1, n, 5):
+        for i in range(1, n, 3):
+            for j in range(i + 1, n, 3):
                 yield raw_fwd([data[:i], data[i:j], data[j:]], reqs=[m1, m2, m3], inq=1)
+        # the same for the web server: every 2-cut and a grid of 3-cuts of three keep-alive requests
+        w3 = _wit_web([b'/a', b'/a', b'/a'], [[r'/a$'], [r'/b$']], False)
+        wdata = b''.join(bytes.fromhex(x) for x in w3['segs'])
+        for i in range(1, len(wdata)):
+            segs = [wdata[:i].hex(), wdata[i:].hex()]
+            yield dict(w3, segs=segs, meta=dict(w3['meta'], segs=segs))
+        for i in range(1, len(wdata), 3):
+            for j in range(i + 1, len(wdata), 3):
+                segs = [wdata[:i].hex(), wdata[i:j].hex(), wdata[j:].hex()]
+                yield dict(w3, segs=segs, meta=dict(w3['meta'], segs=segs))
 
 
 def neighbours(case):
